@@ -28,7 +28,9 @@ def hexs(s):
 
 
 def run_args():
-    return ("run", "--dir", WORKDIR)
+    # scripts run in a worker process of their own (the private copy of the binary): an interpreter
+    # that corrupts memory may abort there without taking the whole request stream along
+    return ("run", "--dir", WORKDIR, "--worker", os.path.join(WORKDIR, "nvh-child"))
 
 
 def stream(ck, n, spawn, big=0, seed_shift=0, label=None):
@@ -330,6 +332,7 @@ def replay(ck, data):
     os.makedirs(WORKDIR, exist_ok=True)
     lock = open(os.path.join(WORKDIR, ".lock"), "w")
     fcntl.flock(lock, fcntl.LOCK_EX)
+    child_binary(ck)
     reqs = data.get("requests", [])
     inp = ("\n".join(reqs) + "\n").encode()
     impl = sh([ck.nvh(), "proc"] + list(run_args()), inp=inp)
